@@ -15,6 +15,7 @@ builds a real DriftCorrection through its public constructor, calls preprocess a
 from __future__ import annotations
 
 import itertools
+import os
 import warnings
 
 import numpy as np
@@ -238,6 +239,99 @@ def w_spellings(item, seed=0):
     return t
 
 
+COPY_KINDS = ["copy.copy", "copy.deepcopy", "pickle", "dill", "save_load_zip", "save_load_dir"]
+
+
+def _make_copy(kind, dc, scratch):
+    import copy
+    import pickle
+    import shutil
+
+    if kind == "copy.copy":
+        return copy.copy(dc)
+    if kind == "copy.deepcopy":
+        return copy.deepcopy(dc)
+    if kind == "pickle":
+        return pickle.loads(pickle.dumps(dc))
+    if kind == "dill":
+        import dill
+
+        return dill.loads(dill.dumps(dc))
+    from quantem.core.io.serialize import load
+
+    target = os.path.join(scratch, f"c15-{os.getpid()}" + (".zip" if kind.endswith("zip") else ""))
+    try:
+        dc.save(target, mode="o", store="zip" if kind.endswith("zip") else "dir")
+        return load(target)
+    finally:
+        shutil.rmtree(target, ignore_errors=True) if os.path.isdir(target) else (os.path.exists(target) and os.remove(target))
+
+
+def _geometry_errors(dc, shape, angles):
+    canvas = tuple(int(v) for v in dc.shape[1:])
+    worst = 0.0
+    for i, a in enumerate(angles):
+        xa, ya = dc.interpolator[i].transform_coordinates(dc.knots[i])
+        ox, oy = closed_form(shape, canvas, a)
+        e = max(float(np.abs(np.asarray(xa) - ox).max()), float(np.abs(np.asarray(ya) - oy).max())) if np.shape(xa) == ox.shape else np.inf
+        worst = max(worst, e)
+    return worst
+
+
+def w_copies(item, seed=0, scratch="/tmp"):
+    """Copies of a preprocessed DriftCorrection (copy.copy / deepcopy / pickle / dill / save+load) used further, alone
+    and alternating with the original: (a) a copy obeys the same closed-form geometry, re-warps to the same images and is
+    a fixed point for identical stacks; (b) re-preprocessing or aligning ONE of the two objects leaves the OTHER one's
+    geometry, canvases and knots exactly as they were, and the other one still is a fixed point afterwards."""
+    shape, ang, knots, pad = tuple(item[0]), float(item[1]), int(item[2]), float(item[3])
+    t = Tally()
+    angles = [ang, (ang + 90.0) % 360.0]
+    other = [(ang + 30.0) % 360.0, (ang + 200.0) % 360.0]
+    for kind in COPY_KINDS:
+        for identical in (False, True):
+            case = {"part": "copies", "shape": list(shape), "angle": ang, "knots": knots, "pad": pad, "kind": kind, "identical_images": identical}
+            t.case(key=case, nontrivial=True)
+            try:
+                with warnings.catch_warnings():
+                    warnings.simplefilter("ignore")
+                    d, ims = build(shape, [ang, ang] if identical else angles, pad, knots, 0.5, seed, identical=identical)
+                    use = [ang, ang] if identical else angles
+                    try:
+                        e = _make_copy(kind, d, scratch)
+                    except Exception as ex:  # noqa: BLE001 - a copy protocol the unchanged tree does not support is counted
+                        t.extra[f"copy_kind_rejected:{kind}:{type(ex).__name__}"] += 1
+                        continue
+                    snap = ([np.array(k, copy=True) for k in d.knots], np.array(d.images_warped.array, copy=True), np.array(d.weights_warped.array, copy=True))
+                    # (a) the copy on its own
+                    ge = _geometry_errors(e, shape, use)
+                    if ge > TOL_GEOM:
+                        t.fail({"relation": "copy_obeys_closed_form", "kind": kind, "knots": knots}, case, f"{kind} of a preprocessed object: coordinates differ from the closed form by {ge:.3g} px (shape={shape} angle={ang} knots={knots})")
+                    for i in range(2):
+                        img, w = e.interpolator[i].warp_image(ims[i], e.knots[i])
+                        ei = float(np.abs(np.asarray(img, float) - snap[1][i]).max()) / max(float(np.abs(snap[1][i]).max()), 1e-12)
+                        if ei > TOL_IMAGE:
+                            t.fail({"relation": "copy_rewarps_to_the_same_image", "kind": kind, "knots": knots}, case, f"{kind}: image {i} re-warped by the copy differs from the original's canvas by {ei:.3g} of max")
+                    # (b) use the copy: re-preprocess with other scan directions on the same canvas, then align it
+                    e.scan_direction_degrees = list(other)
+                    e.preprocess(pad_fraction=pad, number_knots=knots, kde_sigma=0.5, pad_value="mean")
+                    e.align_translation(upsample_factor=2, show_merged=False)
+                    changed = [n for n, (a, b) in zip(("knots", "images_warped", "weights_warped"), ((np.concatenate([np.ravel(k) for k in snap[0]]), np.concatenate([np.ravel(k) for k in d.knots])), (snap[1], np.asarray(d.images_warped.array)), (snap[2], np.asarray(d.weights_warped.array)))) if a.shape != b.shape or not np.array_equal(a, b)]
+                    if changed:
+                        t.fail({"relation": "using_a_copy_leaves_the_original_unchanged", "kind": kind, "what": "+".join(changed)}, case, f"after {kind}, re-preprocessing and aligning the COPY changed the original's {changed} (shape={shape} angle={ang} knots={knots})")
+                    ge = _geometry_errors(d, shape, use)
+                    if ge > TOL_GEOM:
+                        t.fail({"relation": "using_a_copy_leaves_the_original_unchanged", "kind": kind, "what": "geometry"}, case, f"after {kind} and use of the copy the original's coordinates differ from the closed form by {ge:.3g} px")
+                    if identical:
+                        k0 = [np.array(k, copy=True) for k in d.knots]
+                        d.align_translation(upsample_factor=2, show_merged=False)
+                        move = max(float(np.abs(a - b).max()) for a, b in zip(k0, d.knots))
+                        if not np.isfinite(move) or move > TOL_KNOT:
+                            t.fail({"relation": "original_still_fixed_point_after_its_copy_was_used", "kind": kind}, case, f"identical images: after {kind} and use of the copy, aligning the ORIGINAL moved its knots by {move:.4g} px")
+            except Broken:
+                raise
+    return t
+
+
 REPRE = [(0.0, 0.5, 1), (30.0, 0.5, 1), (90.0, 0.5, 2), (200.0, 0.25, 1), (45.0, 0.5, 3), (135.0, 1.0, 1), (30.0, 0.5, 4)]
 
 
@@ -311,6 +405,8 @@ def run(ctx):
     ctx.pmap(w_fixed_point, list(itertools.product(shapes, stacks, fp_angles, [0.5], fp_knots, fp_up)), label="translation fixed point", seed=ctx.seed)
     sp_items = [((7, 9), 30.0, 1, 0.5), ((6, 10), 90.0, 2, 0.25)] if q else [(sh, a, k, pd) for sh in [(7, 9), (6, 10), (8, 8)] for a in (0.0, 30.0, 90.0, 200.0) for k in (1, 2, 4) for pd in (0.25, 1.5)]
     ctx.pmap(w_spellings, sp_items, chunk=1, label="alternative spellings / containers / layouts", seed=ctx.seed)
+    cp_items = [((7, 9), 30.0, 1, 0.5), ((8, 8), 90.0, 2, 0.25)] if q else [(sh, a, k, 0.5) for sh in [(7, 9), (8, 8), (10, 6)] for a in (0.0, 30.0, 200.0) for k in (1, 2, 4)]
+    ctx.pmap(w_copies, cp_items, chunk=1, label="copies used further (copy / deepcopy / pickle / dill / save+load)", seed=ctx.seed, scratch=ctx.scratch)
     rp_shapes = [(7, 9)] if q else [(7, 9), (8, 8), (10, 6)]
     ctx.coverage["bounds"]["repreprocess"] = {"configs": [list(c) for c in REPRE], "depth": 2 if q else 3, "shapes": [list(x) for x in rp_shapes]}
     ctx.pmap(w_repreprocess, [(sh, a) for sh in rp_shapes for a in range(len(REPRE))], chunk=1, label="re-preprocess histories on one object", seed=ctx.seed, depth=2 if q else 3)
@@ -326,6 +422,9 @@ def replay(ctx, case):
         idx = [REPRE.index(tuple(c)) for c in case["history"]]
         t = w_repreprocess((case["shape"], idx[0]), seed=ctx.seed, depth=len(idx))
         t.fails = [f for f in t.fails if f["case"].get("history") == case["history"]]
+    elif case.get("part") == "copies":
+        t = w_copies((case["shape"], case["angle"], case["knots"], case["pad"]), seed=ctx.seed, scratch=ctx.scratch)
+        t.fails = [f for f in t.fails if f["case"].get("kind") == case["kind"] and f["case"].get("identical_images") == case["identical_images"]]
     elif case.get("part") == "fixed_point":
         t = w_fixed_point((case["shape"], case["stack"], case["angle"], case["pad"], case["knots"], case["upsample"]), seed=ctx.seed)
     else:
